@@ -292,14 +292,14 @@ struct TGen {
                 NodeP ch = node(depth + 1);
                 m->map.push_back({k, ch});
             }
-            if (m->map.empty() && deep && budget > 0) m->map.push_back({s.gen_key(), node(depth + 1)});
+            if (m->map.empty() && budget > 0) m->map.push_back({s.gen_key(), node(depth + 1)});     // empty maps are kind 4
             return m;
         }
         case 3: {
             NodeP l = Node::mk(Node::LIST);
             size_t mean = deep ? 1 : 2 + (size_t)c.size / 25;
             for (size_t n = 0; budget > 0 && (c.mark(), c.more(n, mean, 12)); n++) l->list.push_back(node(depth + 1));
-            if (l->list.empty() && deep && budget > 0) l->list.push_back(node(depth + 1));
+            if (l->list.empty() && budget > 0) l->list.push_back(node(depth + 1));                  // empty lists are kind 5
             return l;
         }
         case 4: return Node::mk(Node::MAP);
